@@ -49,7 +49,7 @@ let () =
   register "tokraw" (fun args -> match args with
     | [fl; h; eof] ->
       let (ae, ii) = flags_of fl in
-      (match tok_raw ae ii (unhexbytes h) (eof = "1") with
+      (match tokraw_run ae ii (unhexbytes h) (eof = "1") with
        | None -> "logic"
        | Some ((((ready, unread), ch), otok), bt) ->
          (if ready then "1" else "0") ^ "," ^ (if unread then "1" else "0") ^ "," ^ hexbytes [ch] ^ " " ^
